@@ -8,6 +8,7 @@ import (
 	"github.com/LemoFoundationLtd/lemochain-core/common/log"
 	"github.com/LemoFoundationLtd/lemochain-core/common/rlp"
 	"github.com/LemoFoundationLtd/lemochain-core/store/leveldb"
+	"math/big"
 	"os"
 	"path/filepath"
 	"strconv"
@@ -74,6 +75,8 @@ func NewChainDataBase(home string) *ChainDatabase {
 	// 	log.Errorf("stable block`height: " + strconv.Itoa(int(stableBlock.Height())))
 	// }
 
+	stableBlock = db.completePromotion(stableBlock)
+
 	db.LastConfirm = NewGenesisBlock(stableBlock, db.Beansdb)
 	candidates, err := db.Context.Candidates.GetCandidates()
 	if err != nil {
@@ -82,18 +85,22 @@ func NewChainDataBase(home string) *ChainDatabase {
 
 		// The candidates index must know all candidates again, like on a node which was never restarted. A full re-rank (when a listed candidate
 		// unregisters or loses votes) reads it, and with an empty index a restarted node publishes another top list than the other nodes
-		for _, val := range candidates {
-			db.LastConfirm.CandidateTrieDB.Set(val)
-		}
-
-		// 把票数为0的candidate筛选掉，默认票数为0的candidate为注销的candidate
+		// context.data is flushed before the stable pointer moves, so after a crash it may be one block ahead of the stable block.
+		// It is only trusted for WHO is a candidate; the votes are those of the account as of the stable block
 		newCandidate := make([]*Candidate, 0, len(candidates))
 		for _, val := range candidates {
 			accData, err := db.GetAccount(val.GetAddress())
 			if err != nil {
 				log.Errorf("getAccount from database. address: %s, error: %v", val.Address.String(), err)
+				db.LastConfirm.CandidateTrieDB.Set(val)
 				continue
 			}
+			if accData.Candidate.Votes != nil {
+				val = &Candidate{Address: val.GetAddress(), Total: new(big.Int).Set(accData.Candidate.Votes)}
+			} else {
+				val = &Candidate{Address: val.GetAddress(), Total: new(big.Int)}
+			}
+			db.LastConfirm.CandidateTrieDB.Set(val)
 			if result, ok := accData.Candidate.Profile[types.CandidateKeyIsCandidate]; ok {
 				if result == types.IsCandidateNode {
 					newCandidate = append(newCandidate, val)
@@ -103,6 +110,58 @@ func NewChainDataBase(home string) *ChainDatabase {
 		db.LastConfirm.Top.Rank(max_candidate_count, newCandidate)
 	}
 	return db
+}
+
+// completePromotion finishes a stable block promotion which a crash interrupted. blockCommit writes the block, its accounts
+// and its height index as one batch and only then updates the candidate index and the stable pointer. If the process died
+// in between, the database already holds the accounts of the new block (they are stored by address, without history), so the
+// old stable block cannot be served any more, and the new block is refused as "exists" for ever. The batch is complete when
+// its last record, the height index, is there: redo the two remaining steps.
+func (database *ChainDatabase) completePromotion(stable *types.Block) *types.Block {
+	for {
+		height := uint32(0)
+		if stable != nil {
+			height = stable.Height() + 1
+		}
+		next, err := UtilsGetBlockByHeight(database.Beansdb, height)
+		if err != nil || next == nil || next.Height() != height {
+			return stable
+		}
+		if stable != nil && next.ParentHash() != stable.Hash() {
+			return stable
+		}
+
+		log.Warnf("complete the interrupted promotion of block %d %s", next.Height(), next.Hash().Prefix())
+		candidates := make([]*Candidate, 0)
+		seen := make(map[common.Address]bool)
+		for _, changeLog := range next.ChangeLogs {
+			if seen[changeLog.Address] {
+				continue
+			}
+			seen[changeLog.Address] = true
+			account, err := UtilsGetAccount(database.Beansdb, changeLog.Address)
+			if err != nil || account == nil || len(account.Candidate.Profile) <= 0 {
+				continue
+			}
+			votes := new(big.Int)
+			if account.Candidate.Votes != nil {
+				votes.Set(account.Candidate.Votes)
+			}
+			candidates = append(candidates, &Candidate{Address: account.Address, Total: votes})
+		}
+		if len(candidates) > 0 {
+			if err := database.Context.SetCandidates(candidates); err != nil {
+				panic("complete promotion: set candidates err: " + err.Error())
+			}
+			if err := database.Context.Flush(); err != nil {
+				panic("complete promotion: flush candidates err: " + err.Error())
+			}
+		}
+		if err := leveldb.SetCurrentBlock(database.LevelDB, next.Hash()); err != nil {
+			panic("complete promotion: set stable block err: " + err.Error())
+		}
+		stable = next
+	}
 }
 
 func (database *ChainDatabase) GetStableBlock() (*types.Block, error) {
@@ -255,7 +314,6 @@ func (database *ChainDatabase) blockCommit(hash common.Hash) error {
 	}
 
 	batch.Put(leveldb.ItemFlagBlock, hash.Bytes(), buf)
-	batch.Put(leveldb.ItemFlagBlockHeight, leveldb.EncodeNumber(cItem.Block.Height()), hash.Bytes())
 
 	// store account
 	decode := func(account *types.AccountData, batch Batch) error {
@@ -279,21 +337,21 @@ func (database *ChainDatabase) blockCommit(hash common.Hash) error {
 	}
 
 	commitContext := func(block *types.Block, candidates []*Candidate) error {
-		err = leveldb.SetCurrentBlock(database.LevelDB, cItem.Block.Hash())
-		if err != nil {
-			return err
+		// the candidates first, the stable pointer last: a crash in between leaves context.data ahead of the stable block, which
+		// the start-up tolerates; the other way round the candidates of this block would be lost for ever
+		if len(candidates) > 0 {
+			err := database.Context.SetCandidates(candidates)
+			if err != nil {
+				return err
+			}
+
+			err = database.Context.Flush()
+			if err != nil {
+				return err
+			}
 		}
 
-		if len(candidates) <= 0 {
-			return nil
-		}
-
-		err := database.Context.SetCandidates(candidates)
-		if err != nil {
-			return err
-		}
-
-		return database.Context.Flush()
+		return leveldb.SetCurrentBlock(database.LevelDB, cItem.Block.Hash())
 	}
 
 	accounts := cItem.AccountTrieDB.Collect(cItem.Block.Height())
@@ -301,6 +359,8 @@ func (database *ChainDatabase) blockCommit(hash common.Hash) error {
 	if err != nil {
 		return err
 	}
+	// the height index goes last: it tells completePromotion that the whole batch reached the disk
+	batch.Put(leveldb.ItemFlagBlockHeight, leveldb.EncodeNumber(cItem.Block.Height()), hash.Bytes())
 
 	err = database.Beansdb.Commit(batch)
 	if err != nil {
